@@ -205,6 +205,8 @@ pub fn replay_journal(img: &Disk) -> Model {
 }
 
 struct Ctx<'a> {
+    /// replay of one explicit experiment: never skip the sampled parts
+    always_continue: bool,
     prop: &'a str,
     out: &'a RunOut,
     prefix: Vec<Model>,
@@ -538,14 +540,16 @@ fn judge_one(cx: &Ctx, spec: &Spec, info: &ImgInfo, ms: &MutSpec, stats: &mut Mu
                     }
                     stats.opened_equal += 1;
                     // subsequent writes continue from there (sampled)
-                    if rng.chance(4) {
+                    if cx.always_continue || rng.chance(10) {
                         stats.continuations += 1;
                         let mut crng = Rng::new(crate::rng::mix(&[*len as u64, j as u64, 99]));
                         let ops = crate::gen::gen_continuation(&mut crng, want);
                         let cspec = Spec { prop: prop.to_string(), run_seed: *len as u64, cfg: cfg.clone(), ops, sched: crate::ops::Sched::Default, faults: vec![], flush_batch: 1024, lower_term_reappend: false };
                         let or = crate::exec::Oracles { prop: prop.to_string(), model_eq: true, restart_eq: true, ..Default::default() };
-                        res.after.write_to(cx.img_dir);
-                        let cont = crate::exec::run_spec_in(&cspec, &or, cx.img_dir, want.clone());
+                        // on the very instance that performed the recovery
+                        let (_r2, kept) = eval_image(&img, &cfg, cx.img_dir, true);
+                        let Some(kept) = kept else { return None };
+                        let cont = crate::exec::continue_on(kept, &cspec, &or, cx.img_dir, want.clone());
                         if let Some(v) = cont.violations.into_iter().next() {
                             return Some(viol(prop, format!("{what}:continuation:{}", v.class), format!("after recovering from {:?}: op #{}: {}", ms.mutation, v.op_index, v.detail)));
                         }
@@ -565,7 +569,7 @@ pub fn check_run(prop: &str, spec: &Spec, out: &RunOut, thorough: bool, only: Op
     if out.caller_errors > 0 || out.aborted.is_some() || out.quiescent.is_empty() {
         return vs;
     }
-    let cx = Ctx { prop, out, prefix: out.prefix_models(), img_dir };
+    let cx = Ctx { always_continue: only.is_some(), prop, out, prefix: out.prefix_models(), img_dir };
     let qis: Vec<usize> = match only {
         Some(m) => vec![m.q],
         None => {
